@@ -42,6 +42,38 @@ type c14Scrape struct {
 	FailCode int         `json:"failCode,omitempty"`
 	Samples  []c14Sample `json:"samples,omitempty"`
 	Noise    []int       `json:"noise,omitempty"` // positions (mod len+1) of comment / blank / junk lines
+	// Bulk: families of samples expanded deterministically (kept out of the case text so that cases stay small): a
+	// payload of several parser blocks (the stream parser hands the text over in blocks of about 64 KiB, processed
+	// concurrently) in which the same metric names occur in many blocks
+	Bulk []c14Bulk `json:"bulk,omitempty"`
+}
+
+type c14Bulk struct {
+	Metrics []string `json:"metrics"` // sample k is of metric Metrics[k % len]
+	N       int      `json:"n"`
+	Pad     int      `json:"pad"` // length of a filler label value
+}
+
+// all returns the explicit samples followed by the expanded bulk families.
+func (sc *c14Scrape) all() []c14Sample {
+	if len(sc.Bulk) == 0 {
+		return sc.Samples
+	}
+	out := append([]c14Sample{}, sc.Samples...)
+	for _, b := range sc.Bulk {
+		pad := strings.Repeat("p", b.Pad)
+		for k := 0; k < b.N; k++ {
+			s := c14Sample{Metric: b.Metrics[k%len(b.Metrics)], Form: k, Labels: map[string]string{"id": fmt.Sprint(k % 7), "seq": fmt.Sprint(k)}}
+			if z := k % 4; z > 0 {
+				s.Labels["zone"] = fmt.Sprintf("z%d", z)
+			}
+			if b.Pad > 0 {
+				s.Labels["pad"] = pad
+			}
+			out = append(out, s)
+		}
+	}
+	return out
 }
 
 type c14Target struct {
@@ -82,7 +114,11 @@ func kept(rules []c14Rule, s c14Sample) bool {
 		ls[k] = v
 	}
 	for _, r := range rules {
-		re := regexp.MustCompile("^(?:" + r.Regex + ")$")
+		re := c14re[r.Regex]
+		if re == nil {
+			re = regexp.MustCompile("^(?:" + r.Regex + ")$")
+			c14re[r.Regex] = re
+		}
 		switch r.Action {
 		case "labeldrop":
 			for k := range ls {
@@ -107,9 +143,11 @@ func kept(rules []c14Rule, s c14Sample) bool {
 	return len(ls) > 0
 }
 
+var c14re = map[string]*regexp.Regexp{}
+
 func renderScrape(sc *c14Scrape) []byte {
 	var lines []string
-	for _, s := range sc.Samples {
+	for _, s := range sc.all() {
 		var ls []string
 		keys := make([]string, 0, len(s.Labels))
 		for k := range s.Labels {
@@ -144,7 +182,7 @@ func renderScrape(sc *c14Scrape) []byte {
 }
 
 func recC14() *vkit.Recorder {
-	r := vkit.Rec("C14", "exploration", "rapid-generated sequences of scrapes (payloads built from a sample list, so per-metric counts are known by construction; duplicates; comment/blank noise lines; failures) over 1-3 targets in 1-2 jobs whose metric_relabel_configs come from a keep/drop/labeldrop family with an independent evaluator in the harness; after every scrape the real sidecar's /targets/status/, /runtimeinfo/ and /samples/ (with and without per-metric detail) are compared with a model: totals before/after rules, per-metric sums, series = floor(mean of last <=3 successful scrapes), totalSeries = last successful total, shard load sums, head-series floor; non-trivial = sequence with >=4 successes on one target (window slides), a failure between successes, or rules that drop some but not all samples; distinct = digest of the case")
+	r := vkit.Rec("C14", "exploration", "rapid-generated sequences of scrapes (payloads built from a sample list, so per-metric counts are known by construction; duplicates; comment/blank noise lines; failures) over 1-3 targets in 1-2 jobs whose metric_relabel_configs come from a keep/drop/labeldrop family with an independent evaluator in the harness; after every scrape the real sidecar's /targets/status/, /runtimeinfo/ and /samples/ (with and without per-metric detail) are compared with a model: totals before/after rules, per-metric sums, series = floor(mean of last <=3 successful scrapes), totalSeries = last successful total, shard load sums, head-series floor; in one case of eight a quarter of the scrapes carry bulk families of 300-3000 samples (payloads of up to several hundred KiB, i.e. several blocks of the stream parser, with the same metric names in many blocks); non-trivial = sequence with >=4 successes on one target (window slides), a failure between successes, rules that drop some but not all samples, or a payload of more than two parser blocks; distinct = digest of the case")
 	r.Assume("payload lines are well-formed samples or comment/blank lines (what the statistics parser makes of malformed lines is not part of the statement); relabel rule family: keep/drop on anchored regexes over __name__ and sample labels, labeldrop")
 	return r
 }
@@ -197,7 +235,7 @@ func runC14(rec *vkit.Recorder, c *c14Case) []vkit.Violation {
 	add := func(key, f string, a ...interface{}) {
 		vs = append(vs, vkit.Violation{Key: key, Msg: fmt.Sprintf(f, a...)})
 	}
-	partial := false
+	partial, multiBlock := false, false
 	for i := range c.Scrapes {
 		sc := &c.Scrapes[i]
 		if sc.Target >= len(c.Targets) {
@@ -216,7 +254,11 @@ func runC14(rec *vkit.Recorder, c *c14Case) []vkit.Violation {
 		} else {
 			var tot, scr int64
 			pm := map[string][2]int64{}
-			for _, s := range sc.Samples {
+			all := sc.all()
+			if len(sc.Bulk) > 0 && len(renderScrape(sc)) > 140000 {
+				multiBlock = true
+			}
+			for _, s := range all {
 				tot++
 				x := pm[s.Metric]
 				x[0]++
@@ -352,6 +394,10 @@ func runC14(rec *vkit.Recorder, c *c14Case) []vkit.Violation {
 	if partial {
 		cls = append(cls, "rules-drop-some-not-all")
 	}
+	if multiBlock {
+		nt = true
+		cls = append(cls, "payload-of-several-parser-blocks")
+	}
 	for _, m := range model {
 		if m.succ >= 4 {
 			nt = true
@@ -399,6 +445,7 @@ func genC14(t *rapid.T) *c14Case {
 		c.Targets = append(c.Targets, c14Target{Job: rapid.IntRange(0, nj-1).Draw(t, fmt.Sprintf("t%d-job", i)),
 			Series: int64(rapid.IntRange(0, 40).Draw(t, fmt.Sprintf("t%d-s", i))), Total: int64(rapid.IntRange(0, 80).Draw(t, fmt.Sprintf("t%d-t", i)))})
 	}
+	bulkCase := rapid.IntRange(0, 7).Draw(t, "bulkCase") == 0
 	ns := rapid.IntRange(1, 12).Draw(t, "nScrapes")
 	for i := 0; i < ns; i++ {
 		l := fmt.Sprintf("s%d", i)
@@ -421,6 +468,17 @@ func genC14(t *rapid.T) *c14Case {
 					s.Labels["id"] = fmt.Sprint(rapid.IntRange(0, 5).Draw(t, fmt.Sprintf("%s-idv%d", l, k)))
 				}
 				sc.Samples = append(sc.Samples, s)
+			}
+			if bulkCase && rapid.IntRange(0, 3).Draw(t, l+"-bulk") == 0 {
+				nb := rapid.IntRange(1, 2).Draw(t, l+"-nBulk")
+				for k := 0; k < nb; k++ {
+					b := c14Bulk{N: rapid.SampledFrom([]int{300, 1500, 3000}).Draw(t, fmt.Sprintf("%s-bn%d", l, k)), Pad: rapid.SampledFrom([]int{0, 30, 120}).Draw(t, fmt.Sprintf("%s-bp%d", l, k))}
+					nm := rapid.IntRange(1, 3).Draw(t, fmt.Sprintf("%s-bnm%d", l, k))
+					for q := 0; q < nm; q++ {
+						b.Metrics = append(b.Metrics, rapid.SampledFrom(metrics).Draw(t, fmt.Sprintf("%s-bm%d-%d", l, k, q)))
+					}
+					sc.Bulk = append(sc.Bulk, b)
+				}
 			}
 			nn := rapid.IntRange(0, 3).Draw(t, l+"-noise")
 			for k := 0; k < nn; k++ {
